@@ -7306,6 +7306,10 @@ static int _fetch_as_buffer(PyObject *x, Py_buffer *view, int writable_only)
         }
         view->buf = ((CDataObject *)x)->c_data;
         view->obj = NULL;
+        view->len = -1;     /* unknown size, unless it is an array */
+        if ((ct->ct_flags & CT_ARRAY) && ct->ct_itemdescr->ct_size >= 0)
+            view->len = get_array_length((CDataObject *)x) *
+                        ct->ct_itemdescr->ct_size;
         return 0;
     }
     else {
